@@ -1,6 +1,6 @@
 (* C06 — exported theorems only: each is closed by [exact] and followed by Print Assumptions. *)
 From Coq Require Import List ZArith Bool.
-From Verif Require Import C06.Model C06.OldModel C06.Spec C06.Proofs.
+From Verif Require Import Lib.Interleave C06.Model C06.OldModel C06.Spec C06.Proofs.
 Import ListNotations.
 Open Scope Z_scope.
 
@@ -116,6 +116,25 @@ Theorem c06_concretize_valid : forall st es rq0 host0 victim0,
   op_valid_g st es (OAllocR rq host victim).
 Proof. exact concretize_valid. Qed.
 Print Assumptions c06_concretize_valid.
+
+(* ---- concurrency at lock-section granularity (Update is one critical section) ---- *)
+(* for every interleaving of Update calls that re-record a live pod p and every prefix of it
+   (every point at which a concurrent Allocate can read the ledger): the ledger is exact, p is
+   in it, and an Allocate is only given CPUs whose reference count is below the sharing limit;
+   with the default limit 1 that is: none of p's CPUs *)
+Theorem c06_conc_update : forall o st0 p ts l,
+  wf_opts o -> linv st0 -> palloc_wf p -> palloc_empty p = false -> In p (l_pods st0) ->
+  Lib.Interleave.interleaving ts l -> (forall t a, In t ts -> In a t -> a = OUpdate p) ->
+  forall pre suf, l = pre ++ suf ->
+  forall rq q,
+    match r_hint rq with Some h => NoDup h | None => True end ->
+    r_pref rq = [] -> r_preempt rq = [] ->
+    allocate o (Lib.Interleave.exec (astep o) st0 pre) rq = Some q ->
+    (forall i, In i (p_cpus q) -> ref_in (l_cpus (Lib.Interleave.exec (astep o) st0 pre)) i < o_maxref o)
+    /\ (forall i, In i (p_cpus p) -> 1 <= ref_in (l_cpus (Lib.Interleave.exec (astep o) st0 pre)) i)
+    /\ (o_maxref o = 1 -> forall i, In i (p_cpus q) -> ~ In i (p_cpus p)).
+Proof. exact conc_update_allocate. Qed.
+Print Assumptions c06_conc_update.
 
 Theorem c06_numa_capacity : forall o ops,
   wf_opts o -> nres_nonneg (o_cap o) -> Forall op_sched ops -> within_capacity o (run o ops).
